@@ -97,13 +97,12 @@ func (l *lexer) Lex(lval *yySymType) int {
 			return lval.yys
 
 		case scanner.Float:
-			lval.yys = int(token)
-			lval.string = text
-
+			// Scanner token classes are negative numbers, the generated parser takes a negative token
+			// for the end of input and would silently drop the rest of the file.
 			if debugLexer {
 				fmt.Printf("FLOAT %v %v %v\n", l.s.Position, token, text)
 			}
-			return lval.yys
+			return yyLexErrorf(l, "unexpected number %q", text)
 
 		case scanner.String:
 			lval.yys = STRING
@@ -121,6 +120,10 @@ func (l *lexer) Lex(lval *yySymType) int {
 			continue
 
 		default:
+			if token < 0 {
+				// Char and raw string literals, see scanner.Float above.
+				return yyLexErrorf(l, "unexpected token %q", text)
+			}
 			lval.yys = int(token)
 			lval.string = text
 
